@@ -118,7 +118,7 @@ def gwalk (beh : Beh) (L : Cfg) : (Key → Nat) → Nat → List Nat → List It
 
 def Cfg.toInv (L : Cfg) (f : Fired) : Inv :=
   { cls := L.cls, conn := L.conn, fn := f.item.fn, ud := f.item.ud, name := L.name, time := f.time,
-    uid := f.item.uid, ret := f.step.keep }
+    uid := f.item.uid, ret := f.step.keep, last := f.item.last, period := f.item.period }
 
 def cntAfter (cnt : Key → Nat) (w : List Fired) : Key → Nat := w.foldl (fun c f => bump c f.item.key) cnt
 def nowAfter (now : Nat) (w : List Fired) : Nat := w.foldl (fun n f => n + ticks f.step.acts) now
@@ -252,7 +252,8 @@ theorem gloop_succ (beh : Beh) (L : Cfg) (fuel : Nat) (st : St) (it : Item) (suf
 /-! ### one iteration -/
 
 def mkInv (cls : Cls) (c : Nat) (it : Item) (name : Option Str) (now : Nat) (ret : Bool) : Inv :=
-  { cls, conn := c, fn := it.fn, ud := it.ud, name, time := now, uid := it.uid, ret }
+  { cls, conn := c, fn := it.fn, ud := it.ud, name, time := now, uid := it.uid, ret, last := it.last,
+    period := it.period }
 
 theorem invoke_eq (beh : Beh) (st : St) (cls : Cls) (c : Nat) (it : Item) (name : Option Str) :
     invoke beh st cls c it name =
@@ -308,7 +309,7 @@ theorem filter_filter_dels (l : List Item) (D1 D2 : List Nat) :
 
 theorem gloop_spec (beh : Beh) {L : Cfg} (hL : L.Ok) :
     ∀ (cands : List Item) (fuel : Nat) (st : St) (A post : List Item) (D : List Nat),
-      WF st → L.inv st → cands.length ≤ fuel →
+      WF st → L.inv st → (cands.filter (fun x => decide (x.fn ∉ D))).length ≤ fuel →
       L.get st = A ++ (cands.filter (fun x => decide (x.fn ∉ D)) ++ post) →
       (∀ x ∈ post, L.live x = false) →
       Post L st (gwalk beh L st.cnt st.now D cands)
@@ -333,12 +334,13 @@ theorem gloop_spec (beh : Beh) {L : Cfg} (hL : L.Ok) :
       have hf : (it :: rest).filter (fun x => decide (x.fn ∉ D)) = rest.filter (fun x => decide (x.fn ∉ D)) := by
         simp [List.filter_cons, hD]
       rw [hf, gwalk_skip _ _ _ _ _ _ _ (Or.inl hD)]
-      rw [hf] at hget
-      exact ih fuel st A post D w hinv (Nat.le_trans (Nat.le_succ _) hfuel) hget hpost
+      rw [hf] at hget hfuel
+      exact ih fuel st A post D w hinv hfuel hget hpost
     · have hf : (it :: rest).filter (fun x => decide (x.fn ∉ D)) = it :: rest.filter (fun x => decide (x.fn ∉ D)) := by
         simp [List.filter_cons, hD]
       rw [hf, List.cons_append]
       rw [hf, List.cons_append] at hget
+      rw [hf, List.length_cons] at hfuel
       by_cases hp : L.pred st.now it = true
       · -- the callback is invoked
         rw [gwalk_fire _ _ _ _ _ _ _ hD hp]
@@ -486,8 +488,10 @@ theorem gloop_spec (beh : Beh) {L : Cfg} (hL : L.Ok) :
               rcases List.mem_append.mp hx with hx | hx
               · exact hpost x (List.mem_filter.mp hx).1
               · exact hpost1 x hx
-            have hrec := ih fuel st2 A2 _ (D ++ L.delsOf step.acts) w2 hinv2
-              (Nat.le_of_succ_le_succ hfuel) hget2 hpost2
+            have hfuel2 : (rest.filter (fun x => decide (x.fn ∉ D ++ L.delsOf step.acts))).length ≤ fuel := by
+              rw [← filter_filter_dels]
+              exact Nat.le_trans (List.length_filter_le _ _) (Nat.le_of_succ_le_succ hfuel)
+            have hrec := ih fuel st2 A2 _ (D ++ L.delsOf step.acts) w2 hinv2 hfuel2 hget2 hpost2
             rw [hcnt2, hnow2] at hrec
             revert hrec
             generalize gloop beh L fuel st2 _ = res
@@ -527,6 +531,6 @@ theorem gloop_spec (beh : Beh) {L : Cfg} (hL : L.Ok) :
         rw [gloop_skip _ _ _ _ _ _ hp', gwalk_skip _ _ _ _ _ _ _ (Or.inr hp')]
         have hget' : L.get st = (A ++ [it]) ++ (rest.filter (fun x => decide (x.fn ∉ D)) ++ post) := by
           rw [hget]; simp
-        exact ih fuel st (A ++ [it]) post D w hinv (Nat.le_trans (Nat.le_succ _) hfuel) hget' hpost
+        exact ih fuel st (A ++ [it]) post D w hinv (Nat.le_of_succ_le hfuel) hget' hpost
 
 end Strophe.Lemmas.Handler
